@@ -4,8 +4,12 @@ Model of `src/onnx_ir/_cloner.py` (class `Cloner`: value map, `_clone_or_get_val
 calls (`Value.__init__`, `Node.__init__`, `Graph.__init__` with the `_graph_containers` ownership
 checks) and of the clone entry points `Graph.clone`, `GraphView.clone`, `Function.clone`,
 `Model.clone` (`src/onnx_ir/_core.py`) and `passes/_pass_infra.py` `_FunctionalPassWrapper.call`.
-The second half is the editing alphabet used by the frame theorem (setters of `Value`, `Node`,
-`Graph`, `Shape`, the type objects and the metadata containers).
+The second part is the editing alphabet used by the frame theorem (setters of `Value`, `Node`,
+`Graph`, `Shape`, the type objects and the metadata containers: `Edit`, 31 calls), the third the
+extended alphabet `Edit2` (graph inputs, initializer mapping, `sort`, `insert_before/after`,
+`replace_all_uses_with`, `resize_inputs/outputs`, `model.functions`; `_core.py`,
+`_graph_containers.py`, `_linked_list.py`), the last the scope walker `cloneVerdict` (when does
+`clone` succeed / raise).
 
 Objects live in ONE heap (`World = List Cell`) indexed by creation order.  Everything Python shares
 by reference is a separate cell: values, nodes, graphs, *type objects*, *shape objects*, *metadata
@@ -1808,5 +1812,18 @@ def wGraph (w : World) (allow : Bool) : Nat → Nat → Sc → WRes Sc
 /-- the walker's verdict on `graph.clone(allow_outer_scope_values=allow)` -/
 def cloneVerdict (fuel : Nat) (allow : Bool) (w : World) (g : Nat) : WRes Sc :=
   wGraph w allow fuel g {}
+
+def wFuncCell (w : World) (i : Nat) : WRes FuncS :=
+  (wCell w i).bind fun c => match c with
+    | .func v => .ok v
+    | _ => .err (.unsupported "not a function")
+
+/-- the walker's verdict on `function.clone()`: the body, then the graph-valued defaults of the
+    attribute declarations, all under one value map (`Function.clone`, `_core.py`) -/
+def funcVerdict (fuel : Nat) (w : World) (f : Nat) : WRes Sc :=
+  (wFuncCell w f).bind fun fs =>
+    (wGraph w false fuel fs.graph {}).bind fun A1 =>
+      wFold (fun (ka : String × Nat) A => (wAttrCell w ka.2).bind fun _ =>
+        wAttr w (wGraph w false fuel) ka.2 A) fs.attrs A1
 
 end IrVerif.Clone
